@@ -808,6 +808,34 @@ class Extractor:
         self.out.append("def dropFreesOutsideJob : Nat := %d\n" % outside)
         self.digest["facts"]["dropFreesOutsideJob"] = outside
         self.digest["facts"]["dropFreesTotal"] = total
+        # hand-written hand-backs: a runner that gives the queue up writes `Idle` whatever the state has become meanwhile
+        # (the model's siIdle / sdIdle / sbStealIdle / dqIdle steps); one nested in a test of the state is another protocol
+        cond_hb = []
+        for rel, fn, impl in (("scheduler/desync_scheduler.rs", "sync_immediate", "Scheduler"), ("scheduler/desync_scheduler.rs", "sync_drain", "Scheduler"),
+                              ("scheduler/desync_scheduler.rs", "sync_background", "Scheduler"), ("scheduler/scheduler_future.rs", "drain_queue", "SchedulerFuture")):
+            _, ftoks = self.src.fn_body(rel, fn, impl_of=impl)
+            fn_names = [t[1] for t in ftoks]
+            stack, start, n_hb = [], 0, 0
+            for k in range(len(fn_names)):
+                t = fn_names[k]
+                if t == "{":
+                    stack.append(fn_names[start:k])
+                    start = k + 1
+                elif t == "}":
+                    if stack:
+                        stack.pop()
+                    start = k + 1
+                elif t == ";":
+                    start = k + 1
+                elif fn_names[k:k + 5] == ["state", "=", "QueueState", "::", "Idle"]:
+                    n_hb += 1
+                    if any(h and h[0] in ("if", "match", "while") and "state" in h for h in stack) or (fn_names[start:k].count("if") > 0):
+                        cond_hb.append(fn)
+            if n_hb == 0:
+                raise Unsupported("%s: no hand-back (`state = QueueState::Idle`) found" % fn)
+        self.out.append("/-- runner functions in which a hand-back `state = QueueState::Idle` is nested in a test of the queue state (must be empty) -/")
+        self.out.append("def stateConditionalHandBacks : List String := [%s]\n" % ", ".join('"%s"' % x for x in sorted(set(cond_hb))))
+        self.digest["facts"]["stateConditionalHandBacks"] = sorted(set(cond_hb))
         # inventory of `unsafe` (blocks, fns, impls) per source file: the sites the protocol theorems of C14 are about
         inv = []
         for root, _dirs, files in os.walk(self.src.dir):
